@@ -361,6 +361,55 @@ LateResultViol(inp, outs) ==
                 : i \in {i \in a..last : i <= Len(outs)}}
          : it \in 1..(Len(rs) + 1)}
 
+---------------------------------------------------------------------------
+(***************************************************************************)
+(* C05 at a window operator: "The built-in stateful operators (folds,      *)
+(* joins, windows, ...) output all results of an iteration before          *)
+(* forwarding its FlushAndRestart and carry nothing over into the next     *)
+(* iteration."                                                             *)
+(*  output_after_restart  a result computed from an element of iteration i *)
+(*        comes out after the step that consumed the i-th FlushAndRestart  *)
+(*        (the operator forwards the marker at the end of that step), or - *)
+(*        where the forwarded markers were recorded (keyed path) - after   *)
+(*        the forwarded "R" inside that step                               *)
+(*  carry_over  nothing is carried over, so what comes out during          *)
+(*        iteration i depends on iteration i's input only: it equals, key  *)
+(*        by key and step by step, what the SAME real component gives on   *)
+(*        a fresh instance fed with iteration i's input alone              *)
+(*        (solo: sequence of [it, out], out recorded from that second      *)
+(*        run; a metamorphic oracle - no model involved)                   *)
+(***************************************************************************)
+(* iteration in which the data element with this id was consumed (0: unknown id) *)
+IterOfId(inp, rs, id) ==
+  IF \E i \in DOMAIN inp : IsData(inp[i]) /\ inp[i].v = id
+  THEN LET i == CHOOSE i \in DOMAIN inp : IsData(inp[i]) /\ inp[i].v = id
+       IN 1 + Cardinality({j \in DOMAIN rs : rs[j] < i})
+  ELSE 0
+
+AfterRestartViol(inp, outs) ==
+  LET rs == RSteps(inp)
+      ItOfStep(i) == 1 + Cardinality({j \in DOMAIN rs : rs[j] < i})
+      Stale(i, q) == {x \in SeqSet(outs[i][q].g) :
+                        IterOfId(inp, rs, x) # 0 /\ IterOfId(inp, rs, x) < ItOfStep(i)}
+      AfterR(i, q) == \E r \in 1..(q - 1) : outs[i][r].k = "R"
+  IN UNION {UNION {
+        {V("output_after_restart", "element_of_earlier_iteration", outs[i][q].key, ItOfStep(i), i, x) :
+           x \in Stale(i, q)}
+        \cup (IF AfterR(i, q)
+              THEN {V("output_after_restart", "after_forwarded_marker", outs[i][q].key, ItOfStep(i), i, q)}
+              ELSE {})
+        : q \in {q \in DOMAIN outs[i] : outs[i][q].k = "G"}}
+      : i \in {i \in DOMAIN inp : i <= Len(outs)}}
+
+Rebase(fr, a) == [j \in DOMAIN fr |-> [fr[j] EXCEPT !.step = @ - a + 1]]
+CarryOverViol(inp, outs, solo) ==
+  LET rs == RSteps(inp) IN
+  UNION {LET s == solo[n]  a == ItFirst(rs, s.it)  last == ItLast(inp, rs, s.it) IN
+         {V("carry_over", "differs_from_iteration_alone", key, s.it, a, 0) :
+            key \in {key \in Keys(inp, outs) \cup Keys(inp, s.out) :
+                       Rebase(FlatRes(outs, key, a, last), a) # FlatRes(s.out, key, 1, last - a + 1)}}
+         : n \in DOMAIN solo}
+
 Judge(kind, p, inp, outs) ==
   CASE kind = "count"   -> CountViol(p, inp, outs)
     [] kind = "event"   -> EventViol(p, inp, outs)
